@@ -199,6 +199,47 @@ def minimise_events(job, events, want_class, baseline_fp, scratch):
     return cur
 
 
+def minimise_program(prog, order_a, order_b, job, scratch, budget=24):
+    """Drop top-level declarations that nothing else needs while the two orders
+    still give different inventories. Returns (text_a, text_b) of the smallest
+    pair found (always re-checked by actually running both)."""
+    def differ(oa, ob, tag):
+        ja = write_header_job(scratch, f"min-{tag}-a", gen_decls.header_name(prog), gen_decls.render(prog, oa), job["flags"],
+                              {"callbacks": True} if job.get("callbacks") else None)
+        jb = write_header_job(scratch, f"min-{tag}-b", gen_decls.header_name(prog), gen_decls.render(prog, ob), job["flags"],
+                              {"callbacks": True} if job.get("callbacks") else None)
+        ra, rb = run_requests([gen_req(ja, fix_cfg(0, perturb=False, reference=False), inventory=True),
+                               gen_req(jb, fix_cfg(0, perturb=False, reference=False), inventory=True)], workers=2, timeout=300)
+        if ra.get("kind") != "ok" or rb.get("kind") != "ok" or "inv" not in ra or "inv" not in rb:
+            return False
+        return bool(inv_diff(ra["inv"], rb["inv"]))
+
+    named_in_flags = {f for f in job["flags"] if not f.startswith("-")}
+    oa, ob = list(order_a), list(order_b)
+    if not differ(oa, ob, "0"):
+        return None  # the difference needs the perturbation of one of the runs; keep the original
+    n = 0
+    changed = True
+    while changed and budget > 0:
+        changed = False
+        live = {name for _, name in oa}
+        for e in reversed(prog.entities):
+            if e.name not in live or e.name in named_in_flags:
+                continue
+            if any(e.name in (o.hard | o.soft) for o in prog.entities if o.name in live and o.name != e.name):
+                continue
+            ca = [it for it in oa if it[1] != e.name]
+            cb = [it for it in ob if it[1] != e.name]
+            budget -= 1
+            n += 1
+            if differ(ca, cb, str(n)):
+                oa, ob, changed = ca, cb, True
+                break
+            if budget <= 0:
+                break
+    return gen_decls.render(prog, oa), gen_decls.render(prog, ob)
+
+
 def typedef_of_blocklisted_crosses(prog, order_a, order_b):
     """True if a typedef of a block-listed type stands before that type's
     definition in one of the two orders and after it in the other (the trigger
@@ -423,9 +464,25 @@ def run(tier, seed, only=None):
                     # anything else is identified more finely
                     sig.update({"item_kind": first["item"].split(" ")[0], "diff_kind": dk,
                                 "blocklist_with_implements_trait_callback": blk_cb})
-                out.violation(sig, {"engine": "c07", "kind": "graph-order", "job_a": job0, "job_b": job,
-                                    "fix_a": cfg0, "fix_b": cfg, "diff": d[:6],
-                                    "observed": {"class": "order-dependent-bindings", "items": [x["item"] for x in d]}})
+                doc = {"engine": "c07", "kind": "graph-order", "job_a": job0, "job_b": job,
+                       "fix_a": cfg0, "fix_b": cfg, "diff": d[:6],
+                       "observed": {"class": "order-dependent-bindings", "items": [x["item"] for x in d]}}
+                if minimised[0] < 4 and match_unknown(out, sig):
+                    minimised[0] += 1
+                    ms = make_scratch("c07-min")
+                    try:
+                        m = minimise_program(progs[i][0], progs[i][1][k0], progs[i][1][k], job, ms)
+                        if m is not None:
+                            plain = fix_cfg(0, perturb=False)
+                            doc.update({"original_job_a": job0, "original_job_b": job, "original_fix_a": cfg0,
+                                        "original_fix_b": cfg, "fix_a": plain, "fix_b": plain,
+                                        "job_a": dict(job0, inline=dict(job0["inline"], text=m[0])),
+                                        "job_b": dict(job, inline=dict(job["inline"], text=m[1]))})
+                    except Exception as e:  # the minimiser must never turn a finding into a crash
+                        log(f"[C07] minimiser failed: {e}")
+                    finally:
+                        remove_scratch(ms)
+                out.violation(sig, doc)
                 break
     if progs:
         p0, o0 = progs[0]
